@@ -20,3 +20,8 @@ func vfStubSend(c *IPCClient, header *responseHeader, obj any) error {
 }
 
 func vfStubMlCreate(conf *memberlist.Config) (*memberlist.Memberlist, error) { return nil, nil }
+
+var vfCommands = [21]string{handshakeCommand, authCommand, eventCommand, forceLeaveCommand, joinCommand, membersCommand,
+	membersFilteredCommand, streamCommand, stopCommand, monitorCommand, leaveCommand, installKeyCommand, useKeyCommand,
+	removeKeyCommand, listKeysCommand, tagsCommand, queryCommand, respondCommand, statsCommand, getCoordinateCommand, "no-such-command"}
+
